@@ -196,6 +196,8 @@ def run(ctx):
 
     scanner_loops(ctx)
     throwing_conversions(ctx)
+    nullable_initializer(ctx)
+    expr_tokens_carry_expressions(ctx)
     containment_recursion(ctx)
     construction_stacks(ctx)
     lexer_restore_order(ctx)
@@ -991,3 +993,187 @@ def throwing_conversions(ctx):
     ctx.ob("R15.15", "no-throwing-conversions", n_bad == 0, "src", "%d functions scanned, %d throwing conversions" % (n_fn, n_bad))
     ctx.floor("R15.15", "functions scanned", n_fn, 1500)
 
+
+
+INITIALIZER_EXEMPT = {
+    # function: reason (read and confirmed)
+    "CPPEnumType::substitute_decl|enumerator": "an enumerator always has a value expression: add_element, the only function that appends to _elements, "
+                                               "synthesises one when none is written (checked as obligations of this rule)",
+    "CPPInstance::output|parameter-expr": "in the is_parameter_expr() branch: an instance of type T_parameter is only made by the grammar's formal_parameter "
+                                           "action, which sets the initializer; the one place that clears initializers for a while (CPPParameterList::output) "
+                                           "is checked separately not to touch parameter expressions",
+}
+
+
+def nullable_initializer(ctx):
+    """R15.16: CPPInstance::_initializer is null for every variable without an initializer.  Every dereference is behind
+    a test that it is not null (same base expression), with one reasoned exception that is itself made an obligation:
+    the parameter-expression branch of CPPInstance::output relies on CPPParameterList::output not clearing the
+    initializer of a parameter expression (F-C15l: `int operator [](n) const;` -> SIGSEGV)."""
+    db = ctx.db
+    ctx.rule("R15.16", "every dereference of CPPInstance::_initializer (->, unary *) is dominated by a test that the same expression is not null; CPPParameterList::output, which clears default values while it prints, leaves the initializer of a parameter expression alone")
+    FIELD = "CPPInstance::_initializer"
+    n = 0
+    for f in db.functions:
+        if "bison" in f.file or not any(d in f.file for d in ("/cppparser/", "/interrogate/")):
+            continue
+        sites = []
+        for x in f.walk():
+            b = None
+            if x.get("k") == "mem" and x.get("arrow"):
+                b = strip_casts(peel(x.get("b")))
+            elif x.get("k") == "call" and "this" in x and x.get("arrow", True):
+                b = strip_casts(peel(x["this"]))
+            elif x.get("k") == "un" and x.get("op") == "*":
+                b = strip_casts(peel(x.get("e")))
+            if b is not None and b.get("k") == "mem" and (field_of(b) or "").endswith(FIELD):
+                sites.append((x, b))
+        for x, b in sites:
+            n += 1
+            key = _norm(show(b))
+
+            def nonnull(atom, truth, key=key):
+                c = G.cmp_atom(atom)
+                if c:
+                    op, u, v = c
+                    if not truth:
+                        op = G.NEG[op]
+                    for p, q in ((u, v), (v, u)):
+                        pp = strip_casts(peel(p)) if p is not None else None
+                        if pp is not None and (field_of(pp) or "").endswith(FIELD) and _norm(show(pp)) == key and q is not None and (strip_casts(q) or {}).get("k") == "nullp":
+                            return op == "!="
+                    return False
+                a = strip_casts(peel(atom)) if atom is not None else None
+                return a is not None and (field_of(a) or "").endswith(FIELD) and _norm(show(a)) == key and truth
+            edges = G.edges_where(f, nonnull)
+            ok = G.gated(f, x, edges)
+            inst = "%s|%s" % (f.name, _norm(show(x))[:50])
+            if not ok and f.name == "CPPInstance::output":
+                pe = G.edges_where(f, lambda atom, truth: truth and atom is not None and atom.get("k") == "call" and callee_short(atom) == "is_parameter_expr")
+                if G.gated(f, x, pe):
+                    ctx.ob("R15.16", inst + "|exception", True, f.loc(x), "reasoned exception: " + INITIALIZER_EXEMPT["CPPInstance::output|parameter-expr"])
+                    continue
+            if not ok and f.name == "CPPEnumType::substitute_decl" and key.startswith("element->"):
+                ctx.ob("R15.16", inst + "|exception", True, f.loc(x), "reasoned exception: " + INITIALIZER_EXEMPT["CPPEnumType::substitute_decl|enumerator"])
+                _enumerators_always_valued(ctx)
+                continue
+            ctx.ob("R15.16", inst, ok, f.loc(x), "`%s` is %sbehind a test that %s is not null" % (show(x)[:50], "" if ok else "NOT ", key))
+    ctx.floor("R15.16", "dereferences of CPPInstance::_initializer", n, 8)
+    # the premise of the parameter-expression exception
+    f = db.fn("CPPParameterList::output")
+    clears = [y for y in f.walk() if assigned_target(y) and (field_of(assigned_target(y)[0]) or "").endswith(FIELD)
+              and (strip_casts(peel(assigned_target(y)[1])) or {}).get("k") == "nullp"]
+    if not clears:
+        ctx.ob("R15.16", "CPPParameterList::output|clears-no-initializer", True, f.loc(), "no longer clears initializers while printing")
+    not_pe = G.edges_where(f, lambda atom, truth: (not truth) and atom is not None and atom.get("k") == "call" and callee_short(atom) == "is_parameter_expr")
+    for i, y in enumerate(clears):
+        ok = G.gated(f, y, not_pe)
+        ctx.ob("R15.16", "CPPParameterList::output|clear#%d|spares-parameter-expressions" % i, ok, f.loc(y),
+               "the temporary `_initializer = nullptr` is %sbehind !is_parameter_expr(): CPPInstance::output prints a parameter expression by dereferencing it" % ("" if ok else "NOT "))
+
+
+def _enumerators_always_valued(ctx):
+    """Premise of the enumerator exception of R15.16: an element of CPPEnumType::_elements never has a null initializer."""
+    db = ctx.db
+    FIELD = "CPPInstance::_initializer"
+    writers = {}
+    for f in db.functions:
+        if "bison" in f.file or not any(d in f.file for d in ("/cppparser/", "/interrogate/")):
+            continue
+        for x in f.walk():
+            if x.get("k") == "call" and callee_short(x) in ("push_back", "emplace_back", "insert", "resize", "assign") and "this" in x \
+                    and (field_of(strip_casts(peel(x["this"]))) or "").endswith("CPPEnumType::_elements"):
+                writers.setdefault(f.name, []).append(x)
+    extra = sorted(set(writers) - {"CPPEnumType::add_element"})
+    ctx.ob("R15.16", "CPPEnumType::_elements|only-add_element-appends", not extra and "CPPEnumType::add_element" in writers,
+           "src/cppparser/cppEnumType.cxx", "enumerators are appended by %s" % sorted(writers))
+    f = db.fn("CPPEnumType::add_element")
+    sets = [y for y in f.walk() if assigned_target(y) and (field_of(assigned_target(y)[0]) or "").endswith(FIELD)]
+    ok = False
+    detail = "add_element does not assign the new element's _initializer"
+    if len(sets) == 1:
+        a = sets[0]
+        src = local_ref(assigned_target(a)[1])
+        ablk = f.cfg.locate(a)[0]
+        # (1) every path from the append to the exit passes the assignment
+        pb = [f.cfg.locate(x)[0] for x in writers.get(f.name, [])]
+        through = all(f.cfg.exit not in f.cfg.reachable(b, cut_blocks=[ablk]) or b == ablk for b in pb)
+        # (2) the assigned value is not null: from an edge on which it is known null, the assignment is reached only
+        #     through a block that gives it a fresh object (new ... / a static holding one)
+        nonnull = False
+        if src is not None:
+            null_edges = G.edges_where(f, G.local_is_null(src["d"]))
+            fresh = set()
+            for y in f.walk():
+                t = assigned_target(y)
+                r = local_ref(t[0]) if t else None
+                if r is not None and r.get("d") == src["d"]:
+                    v = strip_casts(peel(t[1])) or {}
+                    if v.get("k") == "new" or (v.get("k") == "ref" and v.get("dk") == "local" and "const" in (v.get("t") or "")):
+                        fresh.add(f.cfg.locate(y)[0])
+            nonnull = bool(null_edges)
+            for (b, idx) in null_edges:
+                tgt = f.cfg.blocks[b].succs[idx]
+                if tgt is not None and ablk in f.cfg.reachable(tgt, cut_blocks=fresh):
+                    nonnull = False
+        ok = through and nonnull
+        detail = "the appended element gets `_initializer = %s` on every path (%s) and that value is never null (%s)" % (show(assigned_target(a)[1]), through, nonnull)
+    ctx.ob("R15.16", "CPPEnumType::add_element|element-always-valued", ok, f.loc(sets[0]) if sets else f.loc(), detail)
+
+
+def expr_tokens_carry_expressions(ctx):
+    """R15.17: the grammar uses the semantic value of a `%token <u.expr>` directly (`| CUSTOM_LITERAL { $$ = $1; }`) and
+    wraps it in operator nodes that evaluate() dereferences.  A token of such a kind must therefore be made with a
+    freshly built expression.  (F-C15m: after "no suitable overload" get_literal returned CUSTOM_LITERAL with a null
+    expression; `static_assert(1 + "s"_x, "")` -> SIGSEGV.)"""
+    db = ctx.db
+    ctx.rule("R15.17", "a token whose kind is declared `%token <u.expr>` in the grammar is constructed (CPPToken(...), get_literal(...)) only right after `<value>.u.expr = new ...` in the same block; no `u.expr = nullptr` anywhere in the lexer")
+    import re
+    from . import C07
+    text = db.meta["grammar"]
+    names = re.findall(r"^%token\s+<u\.expr>\s+([A-Za-z_][A-Za-z_0-9]*)", text, flags=re.M)
+    if not names:
+        ctx.broken("R15.17: no `%token <u.expr>` declaration found in the grammar")
+    tv = C07.token_values(db)
+    vals = {tv[n]: n for n in names if n in tv}
+    if len(vals) != len(names):
+        ctx.broken("R15.17: token values of %s not found" % names)
+    n = 0
+    for f in db.functions:
+        if not f.file.endswith("cppPreprocessor.cxx"):
+            continue
+        for y in f.walk():
+            t = assigned_target(y)
+            if t and (field_of(t[0]) or "").endswith("::expr") and "cppyystype" in (field_of(t[0]) or "") and (strip_casts(peel(t[1])) or {}).get("k") == "nullp":
+                ctx.ob("R15.17", "%s|null-expression-value" % f.name, False, f.loc(y), "`%s`: a semantic value with a null expression is prepared for a token" % show(y)[:60])
+        for x in f.walk():
+            args = None
+            if x.get("k") == "ctor" and x.get("f") == "CPPToken::CPPToken" and len(x.get("a", [])) >= 4:
+                args = x["a"]
+            elif x.get("k") == "call" and callee_short(x) == "get_literal" and len(x.get("a", [])) >= 4:
+                args = x["a"]
+            if args is None:
+                continue
+            kind = const_int(args[0])
+            if kind not in vals:
+                continue
+            n += 1
+            v = local_ref(args[3])
+            lx = f.cfg.locate(x)
+            ok = False
+            if v is not None and lx is not None:
+                for y in f.walk():
+                    t = assigned_target(y)
+                    if not t or not (field_of(t[0]) or "").endswith("::expr"):
+                        continue
+                    base = t[0]
+                    while base is not None and base.get("k") == "mem":
+                        base = strip_casts(peel(base.get("b")))
+                    if base is None or base.get("d") != v.get("d"):
+                        continue
+                    ly = f.cfg.locate(y)
+                    if ly is not None and ly[0] == lx[0] and ly[1] < lx[1] and (strip_casts(peel(t[1])) or {}).get("k") == "new":
+                        ok = True
+            ctx.ob("R15.17", "%s|%s@%s|fresh-expression" % (f.name, vals[kind], callee_short(x) if x.get("k") == "call" else "CPPToken"), ok, f.loc(x),
+                   "the %s token's value %s `u.expr = new ...` just before it is made" % (vals[kind], "gets" if ok else "does NOT get"))
+    ctx.floor("R15.17", "constructions of expression-carrying tokens", n, 3)
